@@ -231,3 +231,57 @@ rewrite /seen -[RHS](size_iota 0 N); apply/eqP; rewrite -all_count; apply/allP =
 rewrite mem_iota add0n /= => hi; exact: leq_ltn_trans (f_le_l i) (Hl hi).
 Qed.
 End Structure.
+
+(* ------------------------------------------------------------------ tables *)
+Section Tables.
+Variable I : inst.
+
+Definition mktab (ks : seq (seq bool)) (g : seq bool -> nat -> option nat) : table :=
+  [seq (k, [seq g k t | t <- ts I]) | k <- ks].
+
+Lemma nth_ts (g : nat -> option nat) t : t < nT I -> nth None [seq g t' | t' <- ts I] t = g t.
+Proof. by move=> ht; rewrite (nth_map 0) ?size_iota // nth_iota // add0n. Qed.
+
+Lemma tlook_mktab ks g k t : k \in ks -> t < nT I -> tlook (mktab ks g) k t = g k t.
+Proof.
+move=> hk ht; rewrite /tlook; elim: ks hk => [|k' ks IH] //=.
+rewrite inE; case: (k' =P k) => [->|ne] /=; first by rewrite nth_ts.
+by rewrite eq_sym; case: (k' =P k) ne => //= _ _ /IH.
+Qed.
+
+Lemma map_mktab_filter ks g (p : pred (seq bool)) t : t < nT I ->
+  [seq nth None e.2 t | e <- mktab ks g & p e.1] = [seq g k t | k <- ks & p k].
+Proof.
+move=> ht; rewrite /mktab filter_map -map_comp.
+by apply: eq_map => k /=; rewrite nth_ts.
+Qed.
+
+Lemma conflict_mktab ks g :
+  conflict_in (mktab ks g) = has (fun x => all (fun t => ~~ isSome (g x t)) (ts I)) ks.
+Proof. by rewrite /conflict_in /mktab has_map; apply: eq_has => x /=; rewrite all_map. Qed.
+
+Lemma local_rowsE c :
+  local_rows I c = mktab (bvs (size (active I c))) (fun x t => local_cost I c x t).
+Proof.
+rewrite /local_rows /mktab /colents size_map; apply: eq_map => x.
+by rewrite -map_comp.
+Qed.
+
+Lemma ominl_mktab ks g :
+  ominl [seq ominl e.2 | e <- mktab ks g] =
+  \big[tmin/None]_(x <- ks) \big[tmin/None]_(t <- ts I) g x t.
+Proof.
+rewrite /mktab -map_comp ominl_map; apply: eq_bigr => x _ /=.
+by rewrite ominl_map.
+Qed.
+
+Lemma isSome_ominl_somes (A : eqType) (h : A -> nat) (s : seq A) :
+  s != [::] -> isSome (ominl [seq Some (h a) | a <- s]).
+Proof. by case: s => [|a s] //= _; case: (ominl _). Qed.
+
+Lemma local_cost_some c x t : allowed I c t != [::] -> isSome (local_cost I c x t).
+Proof.
+rewrite /local_cost /lcost /assignment_costs /allowed -map_comp => h.
+exact: (isSome_ominl_somes (fun ag => ag.2 + flip_cost (mk_cc I c t).1 (colents I c) x ag.1) h).
+Qed.
+End Tables.
